@@ -477,6 +477,8 @@ def run_check(pid, plan, tier, seed, replay=None):
             print("VIOLATION property=%s replay=%s clause=%s" % (pid, rp, c))
         print("%d violating clause instances in total; clause counts: %s" % (n_viol, clause_counts))
         return 1
+    if clause_counts:
+        print("0 violating clause instances beyond the known findings; clause counts: %s" % clause_counts)
     return 0
 
 
